@@ -1815,7 +1815,7 @@ func (g *vcgen) builtin(v ssa.Value, b *ssa.Builtin, c *ssa.CallCommon, args []s
 func (g *vcgen) chanSend(ch, x ssa.Value) {
 	g.val(ch)
 	g.val(x)
-	g.emitChanEvents("send", ch, "true")
+	g.emitChanEventsVal("send", ch, "true", x)
 }
 
 func (g *vcgen) chanRecv(x *ssa.UnOp) {
@@ -1845,7 +1845,7 @@ func (g *vcgen) selectOp(x *ssa.Select) {
 		if st.Dir == types.SendOnly {
 			kind = "send"
 		}
-		g.emitChanEvents(kind, st.Chan, fmt.Sprintf("(= %s %d)", idx, i)) // the case that was chosen
+		g.emitChanEventsVal(kind, st.Chan, fmt.Sprintf("(= %s %d)", idx, i), st.Send) // the case that was chosen
 	}
 	for _, st := range x.States {
 		if st.Dir == types.RecvOnly {
@@ -2058,8 +2058,20 @@ func (e *Engine) chanEventsFor(kind string, ch ssa.Value) []*EventDecl {
 }
 
 // emitChanEvents counts a channel operation (under condition cond) for every event declared on that channel field
-func (g *vcgen) emitChanEvents(kind string, ch ssa.Value, cond string) {
+func (g *vcgen) emitChanEvents(kind string, ch ssa.Value, cond string) { g.emitChanEventsVal(kind, ch, cond, nil) }
+
+// emitChanEventsVal: as emitChanEvents; for a send the value sent is recorded as argument 0 of the event
+func (g *vcgen) emitChanEventsVal(kind string, ch ssa.Value, cond string, sent ssa.Value) {
 	for _, ev := range g.eng.chanEventsFor(kind, ch) {
+		if sent != nil {
+			an := fmt.Sprintf("G.arg.%s.0", ev.Name)
+			g.stateVar(an, g.s.sortOf(sent.Type()))
+			if g.argTypes == nil {
+				g.argTypes = map[string]types.Type{}
+			}
+			g.argTypes[an] = sent.Type()
+			g.set(an, fmt.Sprintf("(ite %s %s %s)", cond, g.val(sent), g.get(g.st, an)))
+		}
 		g.eventVars(ev.Name)
 		now := g.get(g.st, "G.now")
 		cnt := g.get(g.st, "G.cnt."+ev.Name)
